@@ -142,6 +142,8 @@ impl LsmTree {
             let version = self.take_snapshot();
             self.verif_proto.released(&compaction);
             let _ = version.version.release_compaction(compaction);
+            self.verif_proto.notified(VERIF_COMPACT);
+            self.compact.notify_all();
             return Err(err);
         }
         Ok(Some(desc))
@@ -167,6 +169,8 @@ impl LsmTree {
             let version = self.take_snapshot();
             self.verif_proto.released(&compaction);
             let _ = version.version.release_compaction(compaction);
+            self.verif_proto.notified(VERIF_COMPACT);
+            self.compact.notify_all();
             return Err(err);
         }
         Ok(())
